@@ -262,3 +262,1375 @@ Example bp_rows_ex :
 Proof. vm_compute. repeat split. Qed.
 Example symbols1_ex : lookupSymbol1 (ch "&") = typeConcat /\ In ("&"%string, 35%nat) gen_symbols1.
 Proof. split; [reflexivity|]. vm_compute. auto 10. Qed.
+
+(* ==================================================================================== *)
+(* 2. Lexer-level clauses                                                                *)
+(* ==================================================================================== *)
+
+(* ---- 2.0 functional (exact-result) facts about the lexer primitives ---- *)
+
+(* a lexer state without a pending error *)
+Definition mkL (inp : string) (st cur wd : Z) : lexer :=
+  {| input := inp; start := st; current := cur; width := wd; err := None |}.
+
+Lemma mkL_eta l : err l = None -> l = mkL (input l) (start l) (current l) (width l).
+Proof. destruct l as [i s c w e]; simpl; intros ->; reflexivity. Qed.
+
+Lemma mkL_eq inp st st' cur cur' wd wd' : st = st' -> cur = cur' -> wd = wd' ->
+  mkL inp st cur wd = mkL inp st' cur' wd'.
+Proof. intros -> -> ->; reflexivity. Qed.
+
+Fixpoint all_high (s : string) : bool :=
+  match s with EmptyString => true | String c r => (128 <=? byte_of c) && all_high r end.
+
+Lemma decode_rune_ascii c s : byte_of c < 128 -> decode_rune (String c s) = (byte_of c, 1%nat).
+Proof. intros H. unfold decode_rune. replace (byte_of c <? 128) with true by lia. reflexivity. Qed.
+
+Local Ltac Zify.zify_post_hook ::= Z.div_mod_to_equations.
+
+(* a multi-byte (or invalid) sequence decodes to a rune >= 128 and consumes only bytes >= 128 *)
+Lemma decode_rune_high c s : 128 <= byte_of c ->
+  128 <= fst (decode_rune (String c s)) /\
+  (1 <= snd (decode_rune (String c s)) <= slen (String c s))%nat /\
+  all_high (stake (snd (decode_rune (String c s))) (String c s)) = true.
+Proof.
+  intros H0. pose proof (byte_of_range c) as R0.
+  assert (Hbad : 128 <= fst (RuneError, 1%nat) /\ (1 <= snd (RuneError, 1%nat) <= slen (String c s))%nat /\
+                 all_high (stake (snd (RuneError, 1%nat)) (String c s)) = true).
+  { cbn [fst snd stake all_high slen String.length]. unfold RuneError. repeat split; try lia. }
+  unfold decode_rune.
+  replace (byte_of c <? 128) with false by lia.
+  destruct (lead_info (byte_of c)) as [[[sz lo] hi]|] eqn:El; [|exact Hbad].
+  assert (Hlo : 128 <= lo /\ hi <= 191 /\ (sz = 2%nat -> 194 <= byte_of c <= 223)
+                /\ (sz = 3%nat -> 224 <= byte_of c <= 239 /\ (byte_of c = 224 -> 160 <= lo))
+                /\ (sz <> 2%nat -> sz <> 3%nat -> 240 <= byte_of c <= 244 /\ (byte_of c = 240 -> 144 <= lo))).
+  { unfold lead_info in El.
+    repeat match type of El with
+           | (if ?b then _ else _) = _ => destruct b eqn:?; [try discriminate El|]
+           end; try discriminate El; injection El as <- <- <-; repeat split; try lia; try discriminate. }
+  destruct Hlo as (Hlo & Hhi & H2 & H3 & H4).
+  destruct s as [|c1 r1]; [exact Hbad|]. pose proof (byte_of_range c1) as R1.
+  destruct ((lo <=? byte_of c1) && (byte_of c1 <=? hi)) eqn:E1; cbn [negb]; [|exact Hbad].
+  destruct (sz =? 2)%nat eqn:S2.
+  { apply Nat.eqb_eq in S2. specialize (H2 S2).
+    cbn [fst snd stake all_high slen String.length]. repeat split; try lia. }
+  apply Nat.eqb_neq in S2.
+  destruct r1 as [|c2 r2]; [exact Hbad|]. pose proof (byte_of_range c2) as R2.
+  destruct (is_cont (byte_of c2)) eqn:E2; cbn [negb]; [|exact Hbad].
+  unfold is_cont in E2.
+  destruct (sz =? 3)%nat eqn:S3.
+  { apply Nat.eqb_eq in S3. specialize (H3 S3).
+    cbn [fst snd stake all_high slen String.length]. repeat split; try lia. }
+  apply Nat.eqb_neq in S3. specialize (H4 S2 S3).
+  destruct r2 as [|c3 r3]; [exact Hbad|]. pose proof (byte_of_range c3) as R3.
+  destruct (is_cont (byte_of c3)) eqn:E3; cbn [negb]; [|exact Hbad].
+  unfold is_cont in E3.
+  cbn [fst snd stake all_high slen String.length]. repeat split; try lia.
+Qed.
+
+Lemma sdrop_next k inp c s : sdrop k inp = String c s -> sdrop (S k) inp = s.
+Proof.
+  revert inp; induction k as [|k IH]; intros [|d inp]; simpl; try discriminate.
+  - intros H; injection H as _ ->; reflexivity.
+  - intros H. destruct inp; [destruct k; discriminate H|]. apply IH in H. exact H.
+Qed.
+
+Lemma sdrop_plus k w inp s : sdrop k inp = s -> sdrop (k + w) inp = sdrop w s.
+Proof. intros <-. rewrite sdrop_sdrop. reflexivity. Qed.
+
+Lemma sdrop_nonempty_lt k inp : sdrop k inp <> EmptyString -> (k < slen inp)%nat.
+Proof.
+  intros H. destruct (Nat.lt_ge_cases k (slen inp)) as [L|L]; [exact L|].
+  rewrite sdrop_all in H by exact L. congruence.
+Qed.
+
+(* nextRune on an error-free state, as a function of the remaining input *)
+Lemma nextRune_mkL inp st cur wd : 0 <= cur ->
+  nextRune (mkL inp st cur wd) =
+  match sdrop (Z.to_nat cur) inp with
+  | EmptyString => ROk (eof, mkL inp st cur 0)
+  | s => ROk (fst (decode_rune s),
+              mkL inp st (cur + Z.of_nat (snd (decode_rune s))) (Z.of_nat (snd (decode_rune s))))
+  end.
+Proof.
+  intros Hc. unfold nextRune, llength. cbn [err mkL is_some orb input current].
+  destruct (Z.of_nat (slen inp) <=? cur) eqn:E.
+  - rewrite sdrop_all by lia. reflexivity.
+  - replace (cur <? 0) with false by lia.
+    destruct (sdrop (Z.to_nat cur) inp) as [|c s] eqn:Es.
+    + exfalso. apply (f_equal slen) in Es. rewrite slen_sdrop in Es. simpl in Es. lia.
+    + destruct (decode_rune (String c s)) as [r w]. reflexivity.
+Qed.
+
+(* accept: the two outcomes *)
+Lemma accept_mkL P inp st cur wd : 0 <= cur -> P eof = false ->
+  accept P (mkL inp st cur wd) =
+  let s := sdrop (Z.to_nat cur) inp in
+  let w := Z.of_nat (snd (decode_rune s)) in
+  if (match s with EmptyString => false | _ => P (fst (decode_rune s)) end)
+  then ROk (true, mkL inp st (cur + w) w)
+  else ROk (false, mkL inp st cur w).
+Proof.
+  intros Hc HP. unfold accept, sbind. rewrite nextRune_mkL by exact Hc. cbv zeta.
+  destruct (sdrop (Z.to_nat cur) inp) as [|c s] eqn:Es.
+  - rewrite HP. unfold backup, sret, set_current. cbn [mkL current width input start err].
+    f_equal. f_equal. apply mkL_eq; try reflexivity; lia.
+  - destruct (P (fst (decode_rune (String c s)))) eqn:EP.
+    + reflexivity.
+    + unfold backup, sret, set_current. cbn [mkL current width input start err]. f_equal. f_equal.
+      apply mkL_eq; try reflexivity; lia.
+Qed.
+
+(* ---- 2.1 whitespace ---- *)
+
+Definition is_ws_byte (c : ascii) : bool := isWhitespace (byte_of c).
+(* number of leading whitespace bytes (space, tab, LF, CR, VT) *)
+Fixpoint ws_len (s : string) : nat :=
+  match s with
+  | String c r => if is_ws_byte c then S (ws_len r) else O
+  | EmptyString => O
+  end.
+Fixpoint all_ws (s : string) : bool :=
+  match s with String c r => is_ws_byte c && all_ws r | EmptyString => true end.
+
+Lemma isWhitespace_lt r : isWhitespace r = true -> 0 <= r < 128.
+Proof. unfold isWhitespace. change (ch " ") with 32. lia. Qed.
+
+(* the first rune is whitespace iff the first byte is *)
+Lemma first_rune_ws c s : isWhitespace (fst (decode_rune (String c s))) = is_ws_byte c.
+Proof.
+  unfold is_ws_byte. destruct (Z.ltb_spec (byte_of c) 128) as [L|L].
+  - rewrite decode_rune_ascii by exact L. reflexivity.
+  - destruct (decode_rune_high c s L) as (Hr & _).
+    destruct (isWhitespace (fst _)) eqn:E1; [apply isWhitespace_lt in E1; lia|].
+    destruct (isWhitespace (byte_of c)) eqn:E2; [apply isWhitespace_lt in E2; lia|reflexivity].
+Qed.
+
+Lemma ws_byte_ascii c : is_ws_byte c = true -> byte_of c < 128.
+Proof. intros H. apply isWhitespace_lt in H. lia. Qed.
+
+(* acceptAll(isWhitespace): closed form *)
+Lemma acceptAll_ws : forall fuel inp st cur wd b, 0 <= cur ->
+  (ws_len (sdrop (Z.to_nat cur) inp) < fuel)%nat ->
+  let n := ws_len (sdrop (Z.to_nat cur) inp) in
+  exists b',
+  acceptAllLoop fuel isWhitespace b (mkL inp st cur wd) =
+  ROk (b', mkL inp st (cur + Z.of_nat n)
+             (Z.of_nat (snd (decode_rune (sdrop (Z.to_nat (cur + Z.of_nat n)) inp))))).
+Proof.
+  induction fuel as [|f IH]; intros inp st cur wd b Hc Hf n; [lia|].
+  cbn [acceptAllLoop]. unfold sbind. rewrite accept_mkL by (auto; reflexivity). cbv zeta.
+  subst n. destruct (sdrop (Z.to_nat cur) inp) as [|c s] eqn:Es.
+  - cbn [ws_len]. exists b. unfold sret. f_equal. f_equal.
+    replace (cur + Z.of_nat 0) with cur by lia. rewrite Es. reflexivity.
+  - rewrite first_rune_ws. cbn [ws_len] in *. destruct (is_ws_byte c) eqn:Ew.
+    + rewrite decode_rune_ascii by (apply ws_byte_ascii; exact Ew). cbn [snd].
+      assert (Es' : sdrop (Z.to_nat (cur + Z.of_nat 1)) inp = s).
+      { replace (Z.to_nat (cur + Z.of_nat 1)) with (S (Z.to_nat cur)) by lia.
+        eapply sdrop_next; eauto. }
+      destruct (IH inp st (cur + Z.of_nat 1) (Z.of_nat 1) true) as (b' & Hb'); [lia|rewrite Es'; lia|].
+      rewrite Es' in Hb'. exists b'. rewrite Hb'. f_equal. f_equal.
+      replace (cur + Z.of_nat 1 + Z.of_nat (ws_len s)) with (cur + Z.of_nat (S (ws_len s))) by lia.
+      reflexivity.
+    + exists b. unfold sret. f_equal. f_equal.
+      replace (cur + Z.of_nat 0) with cur by lia. rewrite Es. reflexivity.
+Qed.
+
+Lemma skipWhitespace_mkL fuel inp st cur wd : 0 <= cur ->
+  (ws_len (sdrop (Z.to_nat cur) inp) < fuel)%nat ->
+  let c' := cur + Z.of_nat (ws_len (sdrop (Z.to_nat cur) inp)) in
+  skipWhitespace fuel (mkL inp st cur wd) =
+  ROk (tt, mkL inp c' c' (Z.of_nat (snd (decode_rune (sdrop (Z.to_nat c') inp))))).
+Proof.
+  intros Hc Hf c'. unfold skipWhitespace, acceptAll, sbind.
+  destruct (acceptAll_ws fuel inp st cur wd false Hc Hf) as (b' & Hb'). rewrite Hb'.
+  reflexivity.
+Qed.
+
+Lemma ws_len_app ws rest : all_ws ws = true -> ws_len (ws ++ rest) = (slen ws + ws_len rest)%nat.
+Proof.
+  induction ws as [|c ws IH]; simpl; intros H; [reflexivity|].
+  apply andb_true_iff in H as [H1 H2]. rewrite H1, IH by exact H2. reflexivity.
+Qed.
+
+(* C04_ws: [next] skips optional whitespace.  From a state whose remaining input is
+   [ws ++ rest], [ws] made of the five whitespace characters, [next] returns exactly what it
+   returns from ANY state of the same input positioned after [ws] (whatever that state's token
+   start and last rune width): the same token (type, value, position) and the same lexer
+   state.  Whitespace in front of a token is therefore invisible to the parser. *)
+Theorem C04_ws fuel allowRegex l l2 ws rest :
+  err l = None -> err l2 = None -> input l2 = input l -> 0 <= current l <= llength l ->
+  sdrop (Z.to_nat (current l)) (input l) = ws ++ rest -> all_ws ws = true ->
+  current l2 = current l + Z.of_nat (slen ws) ->
+  llength l - current l < Z.of_nat fuel ->
+  next fuel allowRegex l = next fuel allowRegex l2.
+Proof.
+  intros He He2 Hi [Hc Hcl] Hrem Hws Hc2 Hf. unfold llength in Hcl.
+  rewrite (mkL_eta l He), (mkL_eta l2 He2). rewrite Hi, Hc2.
+  set (inp := input l) in *. set (cur := current l) in *.
+  assert (Hrem2 : sdrop (Z.to_nat (cur + Z.of_nat (slen ws))) inp = rest).
+  { replace (Z.to_nat (cur + Z.of_nat (slen ws))) with (Z.to_nat cur + slen ws)%nat by lia.
+    rewrite (sdrop_plus _ _ _ _ Hrem). apply sdrop_app_exact. }
+  assert (Hlen : (slen (ws ++ rest) <= slen inp - Z.to_nat cur)%nat).
+  { rewrite <- Hrem, slen_sdrop. lia. }
+  rewrite slen_app in Hlen.
+  assert (Hwl : (ws_len rest <= slen rest)%nat).
+  { clear. induction rest as [|c r IH]; simpl; [lia|]. destruct (is_ws_byte c); lia. }
+  unfold next, sbind.
+  rewrite !skipWhitespace_mkL; try lia.
+  - rewrite Hrem, Hrem2, ws_len_app by exact Hws.
+    replace (cur + Z.of_nat (slen ws + ws_len rest)) with (cur + Z.of_nat (slen ws) + Z.of_nat (ws_len rest)) by lia.
+    reflexivity.
+  - rewrite Hrem2. unfold llength in Hf. fold inp in Hf. lia.
+  - rewrite Hrem, ws_len_app by exact Hws. unfold llength in Hf. fold inp in Hf. lia.
+Qed.
+
+(* ---- 2.2 string tokens ---- *)
+
+(* [body_ok q s]: the bytes [s] between two quotes [q] form a complete string body: no
+   unescaped [q], and no backslash at the very end (a backslash escapes the rune after it) *)
+Fixpoint body_ok (q : Z) (s : string) : bool :=
+  match s with
+  | EmptyString => true
+  | String c r =>
+      if byte_of c =? q then false
+      else if byte_of c =? 92 then
+        match r with EmptyString => false | String _ r2 => body_ok q r2 end
+      else body_ok q r
+  end.
+
+(* neither quote character nor backslash *)
+Fixpoint plain_body (s : string) : bool :=
+  match s with
+  | EmptyString => true
+  | String c r => negb (byte_of c =? 34) && negb (byte_of c =? 39) && negb (byte_of c =? 92)
+                  && plain_body r
+  end.
+
+Lemma plain_body_ok s : plain_body s = true -> body_ok 34 s = true /\ body_ok 39 s = true.
+Proof.
+  induction s as [|c r IH]; [auto|]. cbn [plain_body body_ok]. intros H.
+  apply andb_true_iff in H as [H H4]. apply andb_true_iff in H as [H H3].
+  apply andb_true_iff in H as [H1 H2].
+  destruct (byte_of c =? 34); [discriminate|]. destruct (byte_of c =? 39); [discriminate|].
+  destruct (byte_of c =? 92); [discriminate|]. auto.
+Qed.
+
+Lemma body_ok_skip q : 0 <= q < 128 -> forall w a, all_high (stake w a) = true ->
+  body_ok q a = body_ok q (sdrop w a).
+Proof.
+  intros Hq. induction w as [|w IH]; intros [|c a]; cbn [stake sdrop all_high]; try reflexivity.
+  intros H. apply andb_true_iff in H as [H1 H2]. cbn [body_ok].
+  replace (byte_of c =? q) with false by lia. replace (byte_of c =? 92) with false by lia.
+  apply IH; exact H2.
+Qed.
+
+Lemma all_high_within w a c rest : byte_of c < 128 ->
+  all_high (stake w (a ++ String c rest)) = true -> (w <= slen a)%nat.
+Proof.
+  intros Hc. revert a; induction w as [|w IH]; intros a H; [lia|].
+  destruct a as [|d a]; cbn [append stake all_high slen String.length] in *.
+  - apply andb_true_iff in H as [H _]. lia.
+  - apply andb_true_iff in H as [_ H]. apply IH in H. unfold slen in *. lia.
+Qed.
+
+Lemma sdrop_app_le w a b : (w <= slen a)%nat -> sdrop w (a ++ b) = sdrop w a ++ b.
+Proof.
+  revert a; induction w as [|w IH]; intros [|c a]; simpl; intros H; try reflexivity; try lia.
+  apply IH; lia.
+Qed.
+Lemma stake_app_le w a b : (w <= slen a)%nat -> stake w (a ++ b) = stake w a.
+Proof.
+  revert a; induction w as [|w IH]; intros [|c a]; simpl; intros H; try reflexivity; try lia.
+  rewrite IH by lia. reflexivity.
+Qed.
+
+(* one rune of a non-empty body that is followed by an ASCII byte: the rune ends inside the
+   body; it is the first byte itself if that is ASCII, and >= 128 (made of bytes >= 128) if not *)
+Lemma decode_in_body c a qc rest : byte_of qc < 128 ->
+  let s := String c a ++ String qc rest in
+  let w := snd (decode_rune s) in
+  (1 <= w <= slen (String c a))%nat /\
+  ((byte_of c < 128 /\ fst (decode_rune s) = byte_of c /\ w = 1%nat) \/
+   (128 <= byte_of c /\ 128 <= fst (decode_rune s) /\ all_high (stake w (String c a)) = true)).
+Proof.
+  intros Hq s w. subst s w. cbn [append].
+  destruct (Z.ltb_spec (byte_of c) 128) as [L|L].
+  - rewrite decode_rune_ascii by exact L. cbn [fst snd slen String.length]. split; [lia|left; auto].
+  - destruct (decode_rune_high c (a ++ String qc rest) L) as (Hr & Hw & Hh).
+    assert (Hin : (snd (decode_rune (String c (a ++ String qc rest))) <= slen (String c a))%nat).
+    { apply (all_high_within _ (String c a) qc rest Hq). exact Hh. }
+    split; [lia|right]. split; [exact L|split; [exact Hr|]].
+    change (String c (a ++ String qc rest)) with (String c a ++ String qc rest) in Hh.
+    rewrite stake_app_le in Hh by exact Hin. exact Hh.
+Qed.
+
+Lemma byte_of_ascii_q q : 0 <= q < 128 -> byte_of (ascii_of_Z q) = q.
+Proof. intros H. apply byte_of_ascii_of_Z. lia. Qed.
+
+Ltac lex_eq := unfold set_start, set_current, set_width, mkL; cbn [input start current width err]; f_equal; lia.
+Ltac slia := unfold slen in *; cbn [String.length] in *; lia.
+
+(* the loop of scanString runs over a complete body up to and including the closing quote *)
+Lemma scanStringLoop_body q : 0 <= q < 128 -> q <> 92 ->
+  forall n body, (slen body <= n)%nat -> body_ok q body = true ->
+  forall fuel inp st cur wd rest, 0 <= cur ->
+    sdrop (Z.to_nat cur) inp = body ++ String (ascii_of_Z q) rest ->
+    (slen body < fuel)%nat ->
+    scanStringLoop fuel q (mkL inp st cur wd) =
+    ROk (None, mkL inp st (cur + Z.of_nat (slen body) + 1) 1).
+Proof.
+  intros Hq Hq92. set (qc := ascii_of_Z q). assert (Hqc : byte_of qc = q) by (apply byte_of_ascii_q; exact Hq).
+  induction n as [|n IH]; intros body Hn Hok fuel inp st cur wd rest Hc Hrem Hf.
+  { destruct body; [|simpl in Hn; lia]. destruct fuel as [|f]; [lia|].
+    cbn [scanStringLoop]. unfold sbind. rewrite nextRune_mkL by exact Hc. rewrite Hrem. cbn [append].
+    rewrite decode_rune_ascii by lia. cbn [fst snd]. rewrite Hqc, Z.eqb_refl. unfold sret.
+    f_equal. f_equal. apply mkL_eq; simpl; lia. }
+  destruct body as [|c a].
+  { apply (IH EmptyString) with (rest := rest); auto. simpl; lia. }
+  destruct fuel as [|f]; [lia|].
+  cbn [scanStringLoop]. change (ch "\") with 92. unfold sbind at 1. rewrite nextRune_mkL by exact Hc. rewrite Hrem.
+  change (String c a ++ String qc rest) with (String c (a ++ String qc rest)). cbv beta iota zeta.
+  destruct (decode_in_body c a qc rest ltac:(lia)) as (Hw & Hcase).
+  change (String c a ++ String qc rest) with (String c (a ++ String qc rest)) in *.
+  set (r := fst (decode_rune (String c (a ++ String qc rest)))) in *.
+  set (w := snd (decode_rune (String c (a ++ String qc rest)))) in *.
+  cbn [body_ok] in Hok.
+  destruct (byte_of c =? q) eqn:Ecq; [discriminate|].
+  (* remaining input after this rune *)
+  assert (Hrem' : sdrop (Z.to_nat (cur + Z.of_nat w)) inp = sdrop w (String c a) ++ String qc rest).
+  { replace (Z.to_nat (cur + Z.of_nat w)) with (Z.to_nat cur + w)%nat by lia.
+    rewrite (sdrop_plus _ _ _ _ Hrem).
+    change (String c (a ++ String qc rest)) with (String c a ++ String qc rest).
+    apply sdrop_app_le. lia. }
+  assert (Hlen' : (slen (sdrop w (String c a)) = slen (String c a) - w)%nat) by apply slen_sdrop.
+  destruct (byte_of c =? 92) eqn:Ebs.
+  - (* backslash: the next rune, whatever it is, is skipped *)
+    destruct Hcase as [(Hlo & Hr & Hw1)|(Hhi & _)]; [|lia].
+    rewrite Hr. rewrite Ecq, Ebs. rewrite Hw1 in *.
+    destruct a as [|c2 a2]; [discriminate|].
+    cbn [sdrop] in Hrem', Hlen'.
+    unfold sbind at 1. rewrite nextRune_mkL by lia. rewrite Hrem'.
+    change (String c2 a2 ++ String qc rest) with (String c2 (a2 ++ String qc rest)). cbv beta iota zeta.
+    destruct (decode_in_body c2 a2 qc rest ltac:(lia)) as (Hw2 & Hcase2).
+    change (String c2 a2 ++ String qc rest) with (String c2 (a2 ++ String qc rest)) in *.
+    set (r2 := fst (decode_rune (String c2 (a2 ++ String qc rest)))) in *.
+    set (w2 := snd (decode_rune (String c2 (a2 ++ String qc rest)))) in *.
+    assert (Hr2 : (r2 =? eof) = false).
+    { destruct Hcase2 as [(_ & -> & _)|(_ & H & _)]; [pose proof (byte_of_range c2)|]; unfold eof; lia. }
+    rewrite Hr2. cbn [negb].
+    assert (Hok2 : body_ok q (sdrop w2 (String c2 a2)) = true).
+    { destruct Hcase2 as [(_ & _ & ->)|(_ & _ & Hh)]; [exact Hok|].
+      destruct w2 as [|w2']; [lia|]. cbn [sdrop stake all_high] in *.
+      apply andb_true_iff in Hh as [_ Hh]. rewrite <- (body_ok_skip q Hq w2' a2 Hh). exact Hok. }
+    rewrite (IH (sdrop w2 (String c2 a2))) with (rest := rest); auto.
+    + f_equal. f_equal. apply mkL_eq; auto. rewrite slen_sdrop. slia.
+    + rewrite slen_sdrop. slia.
+    + lia.
+    + replace (Z.to_nat (cur + Z.of_nat 1 + Z.of_nat w2)) with (Z.to_nat (cur + Z.of_nat 1) + w2)%nat by lia.
+      rewrite (sdrop_plus _ _ _ _ Hrem').
+      change (String c2 (a2 ++ String qc rest)) with (String c2 a2 ++ String qc rest).
+      apply sdrop_app_le. lia.
+    + rewrite slen_sdrop. slia.
+  - (* ordinary rune *)
+    assert (Hrq : (r =? q) = false /\ (r =? 92) = false /\ (r =? eof) = false).
+    { destruct Hcase as [(_ & -> & _)|(_ & H & _)]; [pose proof (byte_of_range c)|]; unfold eof; lia. }
+    destruct Hrq as (E1 & E2 & E3). rewrite E1, E2, E3.
+    assert (Hok' : body_ok q (sdrop w (String c a)) = true).
+    { destruct Hcase as [(_ & _ & ->)|(_ & _ & Hh)]; [exact Hok|].
+      rewrite <- (body_ok_skip q Hq w (String c a) Hh). cbn [body_ok]. rewrite Ecq, Ebs. exact Hok. }
+    rewrite (IH (sdrop w (String c a))) with (rest := rest); auto.
+    + f_equal. f_equal. apply mkL_eq; auto. rewrite Hlen'. slia.
+    + rewrite Hlen'. slia.
+    + lia.
+    + rewrite Hlen'. slia.
+Qed.
+
+Lemma set_mkL a b c i s cu w : set_start a (set_width b (set_current c (mkL i s cu w))) = mkL i a c b.
+Proof. reflexivity. Qed.
+
+(* scanString from the state just after the opening quote (token start = current position) *)
+Lemma scanString_body q : 0 <= q < 128 -> q <> 92 ->
+  forall body fuel inp cur wd rest, body_ok q body = true -> 0 <= cur ->
+    sdrop (Z.to_nat cur) inp = body ++ String (ascii_of_Z q) rest ->
+    (slen body < fuel)%nat ->
+    scanString fuel q (mkL inp cur cur wd) =
+    ROk ({| ttype := typeString; tvalue := body; tpos := cur |},
+         mkL inp (cur + Z.of_nat (slen body) + 1) (cur + Z.of_nat (slen body) + 1) 1).
+Proof.
+  intros Hq Hq92 body fuel inp cur wd rest Hok Hc Hrem Hf.
+  assert (Hlen : (slen body + 1 <= slen inp - Z.to_nat cur)%nat).
+  { rewrite <- slen_sdrop, Hrem, slen_app. simpl. lia. }
+  unfold scanString. unfold sbind at 1.
+  rewrite (scanStringLoop_body q Hq Hq92 (slen body) body (le_n _) Hok fuel inp cur cur wd rest Hc Hrem Hf).
+  unfold sbind at 1. unfold backup. cbn [mkL current width set_current input start err].
+  unfold sbind at 1. unfold newToken, llength.
+  cbn [mkL current width set_current input start err].
+  replace ((0 <=? cur) && (cur <=? cur + Z.of_nat (slen body) + 1 - 1)
+           && (cur + Z.of_nat (slen body) + 1 - 1 <=? Z.of_nat (slen inp))) with true by lia.
+  assert (Hval : sslice (Z.to_nat cur) (Z.to_nat (cur + Z.of_nat (slen body) + 1 - 1)) inp = body).
+  { unfold sslice. replace (Z.to_nat (cur + Z.of_nat (slen body) + 1 - 1) - Z.to_nat cur)%nat with (slen body) by lia.
+    rewrite Hrem. apply stake_app_exact. }
+  rewrite Hval.
+  unfold sbind at 1. unfold acceptRune.
+  rewrite set_mkL.
+  rewrite accept_mkL by (try lia; unfold eof; lia). cbv zeta.
+  assert (Hrem2 : sdrop (Z.to_nat (cur + Z.of_nat (slen body) + 1 - 1)) inp = String (ascii_of_Z q) rest).
+  { replace (Z.to_nat (cur + Z.of_nat (slen body) + 1 - 1)) with (Z.to_nat cur + slen body)%nat by lia.
+    rewrite (sdrop_plus _ _ _ _ Hrem). apply sdrop_app_exact. }
+  rewrite Hrem2. rewrite decode_rune_ascii by (rewrite byte_of_ascii_q; lia).
+  cbn [fst snd]. rewrite byte_of_ascii_q by exact Hq. rewrite Z.eqb_refl.
+  unfold sbind, ignore, sret. cbn [mkL current width input start err set_start].
+  f_equal. f_equal. lex_eq.
+Qed.
+
+Lemma ws_len_quote q rest : 0 <= q < 128 -> isWhitespace q = false ->
+  ws_len (String (ascii_of_Z q) rest) = 0%nat.
+Proof. intros Hq Hw. cbn [ws_len]. unfold is_ws_byte. rewrite byte_of_ascii_q by exact Hq. rewrite Hw. reflexivity. Qed.
+
+(* scan_string_spec: from any error-free state whose remaining input is
+   quote ++ body ++ quote ++ rest (quote = 34 double or 39 single; body complete: no unescaped quote of the same
+   kind, no dangling backslash), [next] returns the string token whose value is the body,
+   verbatim, positioned after the opening quote, and leaves the lexer after the closing quote *)
+Theorem scan_string_spec q body fuel allowRegex inp st cur wd rest :
+  q = 34 \/ q = 39 -> body_ok q body = true -> 0 <= cur ->
+  sdrop (Z.to_nat cur) inp = String (ascii_of_Z q) (body ++ String (ascii_of_Z q) rest) ->
+  (slen body < fuel)%nat ->
+  next fuel allowRegex (mkL inp st cur wd) =
+  ROk ({| ttype := typeString; tvalue := body; tpos := cur + 1 |},
+       mkL inp (cur + 1 + Z.of_nat (slen body) + 1) (cur + 1 + Z.of_nat (slen body) + 1) 1).
+Proof.
+  intros Hq Hok Hc Hrem Hf.
+  assert (Hq' : 0 <= q < 128 /\ q <> 92 /\ isWhitespace q = false) by (destruct Hq; subst q; repeat split; lia).
+  destruct Hq' as (Hq1 & Hq2 & Hq3).
+  unfold next. unfold sbind at 1.
+  rewrite skipWhitespace_mkL; [|exact Hc|rewrite Hrem, ws_len_quote by auto; lia].
+  rewrite Hrem, ws_len_quote by auto.
+  replace (cur + Z.of_nat 0) with cur by lia. rewrite Hrem.
+  unfold sbind at 1. rewrite nextRune_mkL by exact Hc. rewrite Hrem. cbv beta iota zeta.
+  rewrite decode_rune_ascii by (rewrite byte_of_ascii_q; lia). cbn [fst snd].
+  rewrite byte_of_ascii_q by exact Hq1.
+  assert (Hrem1 : sdrop (Z.to_nat (cur + Z.of_nat 1)) inp = body ++ String (ascii_of_Z q) rest).
+  { replace (Z.to_nat (cur + Z.of_nat 1)) with (S (Z.to_nat cur)) by lia. eapply sdrop_next; eauto. }
+  destruct Hq; subst q; cbn -[scanString Z.add Z.of_nat mkL sdrop ascii_of_Z];
+    rewrite andb_false_r.
+  - change (scanString fuel 34 (mkL inp (cur + Z.of_nat 1) (cur + Z.of_nat 1) (Z.of_nat 1)) = 
+            ROk ({| ttype := typeString; tvalue := body; tpos := cur + 1 |},
+                 mkL inp (cur + 1 + Z.of_nat (slen body) + 1) (cur + 1 + Z.of_nat (slen body) + 1) 1)).
+    rewrite (scanString_body 34 ltac:(lia) ltac:(lia) body fuel inp (cur + Z.of_nat 1) (Z.of_nat 1) rest Hok ltac:(lia) Hrem1 Hf).
+    f_equal; f_equal; first [f_equal; lia|apply mkL_eq; lia].
+  - change (scanString fuel 39 (mkL inp (cur + Z.of_nat 1) (cur + Z.of_nat 1) (Z.of_nat 1)) = 
+            ROk ({| ttype := typeString; tvalue := body; tpos := cur + 1 |},
+                 mkL inp (cur + 1 + Z.of_nat (slen body) + 1) (cur + 1 + Z.of_nat (slen body) + 1) 1)).
+    rewrite (scanString_body 39 ltac:(lia) ltac:(lia) body fuel inp (cur + Z.of_nat 1) (Z.of_nat 1) rest Hok ltac:(lia) Hrem1 Hf).
+    f_equal; f_equal; first [f_equal; lia|apply mkL_eq; lia].
+Qed.
+
+(* C04_quotes: which quote character delimits a string does not matter.  For a body with neither
+   quote character nor backslash, the double-quoted and the single-quoted spelling lex to string
+   tokens with the same type and the same value (the body itself). *)
+Theorem C04_quotes s fuel b1 b2 inp1 st1 cur1 wd1 rest1 inp2 st2 cur2 wd2 rest2 :
+  plain_body s = true -> 0 <= cur1 -> 0 <= cur2 -> (slen s < fuel)%nat ->
+  sdrop (Z.to_nat cur1) inp1 = String (ascii_of_Z 34) (s ++ String (ascii_of_Z 34) rest1) ->
+  sdrop (Z.to_nat cur2) inp2 = String (ascii_of_Z 39) (s ++ String (ascii_of_Z 39) rest2) ->
+  exists t1 l1 t2 l2,
+    next fuel b1 (mkL inp1 st1 cur1 wd1) = ROk (t1, l1) /\
+    next fuel b2 (mkL inp2 st2 cur2 wd2) = ROk (t2, l2) /\
+    ttype t1 = typeString /\ ttype t2 = typeString /\ tvalue t1 = s /\ tvalue t2 = s /\
+    sdrop (Z.to_nat (current l1)) inp1 = rest1 /\ sdrop (Z.to_nat (current l2)) inp2 = rest2.
+Proof.
+  intros Hp Hc1 Hc2 Hf H1 H2. destruct (plain_body_ok s Hp) as [Hd Hs].
+  do 4 eexists.
+  split; [apply (scan_string_spec 34 s fuel b1 inp1 st1 cur1 wd1 rest1); auto|].
+  split; [apply (scan_string_spec 39 s fuel b2 inp2 st2 cur2 wd2 rest2); auto|].
+  cbn [ttype tvalue mkL current]. repeat split.
+  - replace (Z.to_nat (cur1 + 1 + Z.of_nat (slen s) + 1)) with (Z.to_nat cur1 + (1 + slen s + 1))%nat by lia.
+    rewrite (sdrop_plus _ _ _ _ H1). cbn [sdrop Nat.add].
+    replace (slen s + 1)%nat with (slen (s ++ String (ascii_of_Z 34) EmptyString)) by (rewrite slen_app; reflexivity).
+    change (String (ascii_of_Z 34) rest1) with (String (ascii_of_Z 34) EmptyString ++ rest1).
+    rewrite <- sapp_assoc. apply sdrop_app_exact.
+  - replace (Z.to_nat (cur2 + 1 + Z.of_nat (slen s) + 1)) with (Z.to_nat cur2 + (1 + slen s + 1))%nat by lia.
+    rewrite (sdrop_plus _ _ _ _ H2). cbn [sdrop Nat.add].
+    replace (slen s + 1)%nat with (slen (s ++ String (ascii_of_Z 39) EmptyString)) by (rewrite slen_app; reflexivity).
+    change (String (ascii_of_Z 39) rest2) with (String (ascii_of_Z 39) EmptyString ++ rest2).
+    rewrite <- sapp_assoc. apply sdrop_app_exact.
+Qed.
+
+Example C04_quotes_ex :
+  let s := "a b/c"%string in
+  plain_body s = true /\
+  (exists l, next 20 true (newLexer """a b/c"" & x") = ROk ({| ttype := typeString; tvalue := s; tpos := 1 |}, l)) /\
+  (exists l, next 20 true (newLexer "'a b/c' & x") = ROk ({| ttype := typeString; tvalue := s; tpos := 1 |}, l)).
+Proof. vm_compute. repeat split; eexists; reflexivity. Qed.
+
+Example C04_ws_ex :
+  next 20 true (newLexer "  	x") =
+  next 20 true {| input := "  	x"; start := 1; current := 3; width := 7; err := None |}.
+Proof. vm_compute. reflexivity. Qed.
+
+(* ---- 2.3 regular expression or division ---- *)
+
+Lemma linv_mkL inp st cur wd : 0 <= st <= cur -> cur <= Z.of_nat (slen inp) -> linv (mkL inp st cur wd).
+Proof. unfold linv, llength. simpl. lia. Qed.
+
+(* scanRegex always returns a regex token or an error token *)
+Lemma scanRegex_type fuel q l : linv l -> llength l - current l < Z.of_nat fuel -> q <> eof ->
+  match scanRegex fuel q l with
+  | ROk (t, _) => ttype t = typeRegex \/ ttype t = typeError
+  | _ => False
+  end.
+Proof.
+  intros Hl Hf Hq.
+  assert (H : lspec false (scanRegex fuel q l) (fun t _ => ttype t = typeRegex \/ ttype t = typeError)).
+  { unfold scanRegex.
+    eapply lspec_bind; [apply scanRegexLoop_spec; [exact Hq|exact Hl|right; exact Hf]|].
+    intros [t|] l1 Hp; cbv beta iota.
+    - apply lspec_ret. right. apply Hp.
+    - destruct Hp as (E & Hw & Hc).
+      apply (tail_spec false typeRegex q l l1
+               (fun t => do hasFlags <- acceptAll fuel isRegexFlag;
+                         if hasFlags then
+                           do flags <- newToken typeEOF;
+                           sret (set_tvalue ("(?" ++ tvalue flags ++ ")" ++ tvalue t) t)
+                         else sret t)); auto.
+      intros t l' Hty Hpos Hl' Hi He Hs Hcc.
+      assert (HL' : llength l' = llength l) by (unfold llength; now rewrite Hi).
+      eapply lspec_bind.
+      { apply acceptAllLoop_spec; [reflexivity|exact Hl'|]. right. lia. }
+      intros b l2 (E2 & _). cbv beta.
+      pose proof (ext_linv _ _ Hl' E2) as Hl2.
+      destruct b.
+      + eapply lspec_bind; [apply newToken_spec; exact Hl2|].
+        intros fl l3 _. cbv beta. apply lspec_ret. left. exact Hty.
+      + apply lspec_ret. left. exact Hty. }
+  unfold lspec in H. destruct (scanRegex fuel q l) as [[t l']| | |]; auto. discriminate H.
+Qed.
+
+(* C04_regex_div, lexer side: the same character [/] is the division token when the parser asks
+   with allowRegex = false, and the start of a regular-expression token (scanned by scanRegex
+   from the character after it) when it asks with allowRegex = true *)
+Theorem C04_regex_div fuel inp st cur wd rest :
+  0 <= cur -> sdrop (Z.to_nat cur) inp = String "/" rest -> (0 < fuel)%nat ->
+  Z.of_nat (slen inp) - cur < Z.of_nat fuel ->
+  next fuel false (mkL inp st cur wd) =
+    ROk ({| ttype := typeDiv; tvalue := "/"; tpos := cur |}, mkL inp (cur + 1) (cur + 1) 0)
+  /\ next fuel true (mkL inp st cur wd) = scanRegex fuel (ch "/") (mkL inp (cur + 1) (cur + 1) 1)
+  /\ exists t l', next fuel true (mkL inp st cur wd) = ROk (t, l')
+                  /\ (ttype t = typeRegex \/ ttype t = typeError).
+Proof.
+  intros Hc Hrem Hf0 Hf.
+  assert (Hlt : (Z.to_nat cur < slen inp)%nat).
+  { apply sdrop_nonempty_lt. rewrite Hrem. discriminate. }
+  assert (Hskip : forall b, next fuel b (mkL inp st cur wd) =
+            (if b && (47 =? 47) then ignore ;; scanRegex fuel 47
+             else do two <- trySymbols2 (lookupSymbol2 47);
+                  match two with
+                  | Some t => sret t
+                  | None => newToken typeDiv
+                  end) (mkL inp cur (cur + 1) 1)).
+  { intros b. unfold next. unfold sbind at 1.
+    rewrite skipWhitespace_mkL; [|exact Hc|rewrite Hrem; cbn; lia].
+    rewrite Hrem. cbn [ws_len]. change (is_ws_byte "/") with false. cbv iota.
+    replace (cur + Z.of_nat 0) with cur by lia. rewrite Hrem.
+    unfold sbind at 1. rewrite nextRune_mkL by exact Hc. rewrite Hrem. cbv beta iota zeta.
+    rewrite decode_rune_ascii by (vm_compute; reflexivity). cbn [fst snd].
+    change (byte_of "/") with 47. change (Z.of_nat 1) with 1. reflexivity. }
+  assert (Hreg : next fuel true (mkL inp st cur wd) = scanRegex fuel (ch "/") (mkL inp (cur + 1) (cur + 1) 1)).
+  { rewrite Hskip. reflexivity. }
+  split; [|split; [exact Hreg|]].
+  - rewrite Hskip. cbn [andb]. change (lookupSymbol2 47) with (@nil (rune * tokentype)).
+    cbn [trySymbols2]. unfold sbind, sret, newToken, llength.
+    cbn [mkL start current input width err].
+    replace ((0 <=? cur) && (cur <=? cur + 1) && (cur + 1 <=? Z.of_nat (slen inp))) with true by lia.
+    f_equal. f_equal.
+    unfold sslice. replace (Z.to_nat (cur + 1) - Z.to_nat cur)%nat with 1%nat by lia.
+    rewrite Hrem. reflexivity.
+  - rewrite Hreg.
+    pose proof (scanRegex_type fuel (ch "/") (mkL inp (cur + 1) (cur + 1) 1)) as H.
+    destruct (scanRegex fuel (ch "/") (mkL inp (cur + 1) (cur + 1) 1)) as [[t l']| | |].
+    + exists t, l'. split; [reflexivity|]. apply H; [apply linv_mkL; lia|unfold llength; simpl; lia|discriminate].
+    + exfalso. apply H; [apply linv_mkL; lia|unfold llength; simpl; lia|discriminate].
+    + exfalso. apply H; [apply linv_mkL; lia|unfold llength; simpl; lia|discriminate].
+    + exfalso. apply H; [apply linv_mkL; lia|unfold llength; simpl; lia|discriminate].
+Qed.
+
+Example C04_regex_div_ex :
+  (exists l, next 20 false (newLexer "/ab/i") = ROk ({| ttype := typeDiv; tvalue := "/"; tpos := 0 |}, l)) /\
+  (exists l, next 20 true (newLexer "/ab/i") = ROk ({| ttype := typeRegex; tvalue := "(?i)ab"; tpos := 1 |}, l)).
+Proof. vm_compute. split; eexists; reflexivity. Qed.
+
+(* ---- 2.4 which flag the parser passes, keywords as names, parentheses, the leds ---- *)
+
+Section ParserClauses.
+Variable parse_number : string -> numlit.
+Variable regex_check : string -> option string.
+Variable fmt_g : f64 -> string.
+Variable quote : string -> string.
+
+Notation pExpr := (parseExpression parse_number regex_check fmt_g quote).
+Notation lLoop := (ledLoop parse_number regex_check fmt_g quote).
+Notation nudOf := (lookupNud parse_number regex_check).
+Notation ledOf := (lookupLed fmt_g quote).
+
+(* the Pratt loop, one unfolding: the token that follows the FIRST token of an operand is
+   requested with allowRegex = false (after an operand [/] is division) ... *)
+Lemma parseExpression_unfold f rbp :
+  pExpr (S f) rbp =
+  (do t <- curToken;
+   if tt_eqb (ttype t) typeEOF then perr (mkError ErrUnexpectedEOF t "")
+   else
+     advance false ;;
+     match nudOf f (pExpr f) (ttype t) with
+     | None => perr (mkError ErrPrefix t "")
+     | Some nud => do lhs <- nud t; lLoop f rbp lhs
+     end).
+Proof. reflexivity. Qed.
+
+(* ... and the token that follows an infix/postfix operator with allowRegex = true (an operand
+   is expected there, [/] starts a regular expression) *)
+Lemma ledLoop_unfold f rbp lhs :
+  lLoop (S f) rbp lhs =
+  (do t <- curToken;
+   if rbp <? lookupBp (ttype t) then
+     advance true ;;
+     match ledOf f (pExpr f) (ttype t) with
+     | None => perr (mkError ErrInfix t "")
+     | Some led => do lhs' <- led t lhs; lLoop f rbp lhs'
+     end
+   else sret lhs).
+Proof. reflexivity. Qed.
+
+(* the very first token of a program is an operand start *)
+Lemma newParser_flag src :
+  newParser src = match advance true {| plexer := newLexer src; ptoken := zeroToken |} with
+                  | ROk (_, p) => ROk p | RErr e => RErr e | RPanic w => RPanic w | RFuel => RFuel
+                  end.
+Proof. reflexivity. Qed.
+
+(* C04_regex_div, parser side, for the tokens consumed INSIDE nuds and leds: a closing ) ] } of a
+   block, array, object, call, predicate or group ends an operand (flag false); separators and
+   opening tokens are followed by an operand (flag true).  The three remaining closers pass
+   TRUE although they end an operand — see C04_regex_after_closer_quirk below. *)
+Lemma C04_closer_flags lf pe t lhs :
+  parseArray lf pe t =
+    (do ty <- curType;
+     do items <- (if negb (tt_eqb ty typeBracketClose) then parseArrayLoop pe lf [] else sret []);
+     consume typeBracketClose false ;; sret (NArray items))
+  /\ parseBlock lf pe t =
+    (do exprs <- parseBlockLoop pe lf []; consume typeParenClose false ;; sret (NBlock exprs))
+  /\ parseObjectPairs lf pe =
+    (do ty <- curType;
+     do pairs <- (if negb (tt_eqb ty typeBraceClose) then parseObjectLoop pe lf [] else sret []);
+     consume typeBraceClose false ;; sret pairs)
+  /\ parsePredicate pe t lhs =
+    (do ty <- curType;
+     if tt_eqb ty typeBracketClose then consume typeBracketClose false ;; sret (NSingletonArray lhs)
+     else do rhs <- pe 0; consume typeBracketClose false ;; sret (NPred lhs rhs)).
+Proof. repeat split; reflexivity. Qed.
+
+(* the closing parenthesis of ^( ), the closing brace of a function body and the closing bar of a
+   transform are consumed with allowRegex = TRUE: a [/] that directly follows one of these
+   operands is lexed as the start of a regular expression, not as division (the running
+   implementation indeed rejects a^(b)/2; jsonata-js has the same flag there) *)
+Lemma C04_regex_after_closer_quirk lf pe t lhs :
+  parseSort lf pe t lhs =
+    (consume typeParenOpen true ;; do terms <- parseSortLoop pe lf [];
+     consume typeParenClose true ;; sret (NSort lhs terms))
+  /\ (forall sh, parseLambdaDefinition lf pe sh =
+       (do paramNames <- extractParamNames lf pe;
+        do sg <- extractSignature lf;
+        let '(sig, isTyped) := sg in
+        do params <- (if isTyped then
+                        do params <- sfail (parseParams (S (slen sig)) sig);
+                        if negb (Nat.eqb (List.length params) (List.length paramNames)) then
+                          do t <- curToken; perr (mkError ErrParamCount t "")
+                        else sret params
+                      else sret []);
+        consume typeBraceOpen true ;;
+        do body <- pe 0;
+        consume typeBraceClose true ;;
+        if negb isTyped then sret (NLambda paramNames body sh)
+        else sret (NTypedLambda paramNames body sh params))).
+Proof. split; [reflexivity|intros sh; reflexivity]. Qed.
+
+(* C04_kw_names: where an operand is expected, the words and, or, in are field names *)
+Theorem C04_kw_names lf pe t :
+  nudOf lf pe typeAnd = Some parseName /\ nudOf lf pe typeOr = Some parseName /\
+  nudOf lf pe typeIn = Some parseName /\ parseName t = sret (NName (tvalue t) false).
+Proof. repeat split; reflexivity. Qed.
+
+Lemma tt_eqb_refl t : tt_eqb t t = true.
+Proof. unfold tt_eqb. apply Nat.eqb_refl. Qed.
+
+(* ---- 3. parentheses ---- *)
+
+(* the content of ( ) is parsed with right binding power 0, whatever the binding power in force
+   outside, and comes back as ONE node (a block) *)
+Lemma parseBlock_single lf pe t p e p1 p2 :
+  ttype (ptoken p) <> typeParenClose ->
+  pe 0 p = ROk (e, p1) ->
+  ttype (ptoken p1) = typeParenClose ->
+  advance false p1 = ROk (tt, p2) ->
+  parseBlock (S lf) pe t p = ROk (NBlock [e], p2).
+Proof.
+  intros Hne Hpe Hcl Hadv. unfold parseBlock. unfold sbind at 1.
+  cbn [parseBlockLoop]. rewrite bind_curType.
+  apply tt_eqb_neq in Hne. rewrite Hne.
+  unfold sbind at 1. rewrite Hpe. rewrite bind_curType. rewrite Hcl.
+  cbn [tt_eqb tt_num Nat.eqb negb app]. unfold sret at 1.
+  unfold sbind at 1. unfold consume. rewrite bind_curToken. rewrite Hcl.
+  cbn [tt_eqb tt_num Nat.eqb negb]. rewrite Hadv. reflexivity.
+Qed.
+
+(* C04_paren: a parenthesised sub-expression is an operand.  When the current token is ( and
+   the tokens after it parse, at right binding power 0, to e up to the matching ), then
+   parseExpression at ANY right binding power rbp takes the block NBlock [e] as the left
+   operand of its operator loop: neither rbp nor the operators around the parentheses
+   influence how the content is grouped, and the content never captures operators outside. *)
+Theorem C04_paren f rbp p p0 e p1 p2 :
+  ttype (ptoken p) = typeParenOpen ->
+  advance false p = ROk (tt, p0) ->
+  ttype (ptoken p0) <> typeParenClose ->
+  pExpr (S f) 0 p0 = ROk (e, p1) ->
+  ttype (ptoken p1) = typeParenClose ->
+  advance false p1 = ROk (tt, p2) ->
+  pExpr (S (S f)) rbp p = lLoop (S f) rbp (NBlock [e]) p2.
+Proof.
+  intros Hop Ha Hne Hpe Hcl Ha2.
+  rewrite parseExpression_unfold. rewrite bind_curToken. rewrite Hop.
+  cbn [tt_eqb tt_num Nat.eqb]. unfold sbind at 1. rewrite Ha.
+  change (nudOf (S f) (pExpr (S f)) typeParenOpen) with (Some (parseBlock (S f) (pExpr (S f)))).
+  cbv iota. unfold sbind at 1.
+  rewrite (parseBlock_single f (pExpr (S f)) (ptoken p) p0 e p1 p2 Hne Hpe Hcl Ha2).
+  reflexivity.
+Qed.
+
+(* ---- 4b. the leds of the binary operators are "lhs op parseExpression(bp)" ---- *)
+
+(* the node constructor of each binary operator token *)
+Definition binop_of (ty : tokentype) : option (node -> node -> node) :=
+  match ty with
+  | typePlus => Some (NNumeric NumAdd) | typeMinus => Some (NNumeric NumSub)
+  | typeMult => Some (NNumeric NumMul) | typeDiv => Some (NNumeric NumDiv)
+  | typeMod => Some (NNumeric NumMod)
+  | typeEqual => Some (NComparison CmpEq) | typeNotEqual => Some (NComparison CmpNe)
+  | typeLess => Some (NComparison CmpLt) | typeLessEqual => Some (NComparison CmpLe)
+  | typeGreater => Some (NComparison CmpGt) | typeGreaterEqual => Some (NComparison CmpGe)
+  | typeIn => Some (NComparison CmpIn)
+  | typeAnd => Some (NBoolOp BoolAnd) | typeOr => Some (NBoolOp BoolOr)
+  | typeConcat => Some NConcat
+  | typeApply => Some NApply
+  | typeDot => Some NDot
+  | _ => None
+  end.
+
+(* every one of these 17 operators parses its right operand at ITS OWN binding power: operators
+   of the same row group to the left *)
+Theorem led_binary lf pe t mk : binop_of (ttype t) = Some mk ->
+  exists led, ledOf lf pe (ttype t) = Some led /\
+    forall lhs, led t lhs = (do rhs <- pe (lookupBp (ttype t)); sret (mk lhs rhs)).
+Proof.
+  intros H. destruct t as [ty v pos]. cbn [ttype] in *.
+  destruct ty; try discriminate H; injection H as <-;
+    (eexists; split; [reflexivity|intros lhs; reflexivity]).
+Qed.
+
+(* := parses its right operand one below its own binding power: it groups to the right;
+   its left operand must be a variable *)
+Theorem led_assign lf pe t :
+  ledOf lf pe typeAssign = Some (parseAssignment fmt_g quote pe) /\
+  (forall name, parseAssignment fmt_g quote pe t (NVariable name) =
+                (do v <- pe (lookupBp (ttype t) - 1); sret (NAssignment name v))) /\
+  (forall lhs, (forall name, lhs <> NVariable name) ->
+               parseAssignment fmt_g quote pe t lhs =
+               perr (mkError ErrIllegalAssignment t (node_string fmt_g quote lhs))).
+Proof.
+  split; [reflexivity|split; [intros name; reflexivity|]].
+  intros lhs Hn. destruct lhs; try reflexivity. exfalso. eapply Hn; reflexivity.
+Qed.
+
+(* ? parses the then-branch and, after a colon, the else-branch at binding power 0: the
+   else-branch extends as far as possible (so it groups to the right and even takes a := ) *)
+Theorem led_conditional lf pe t lhs :
+  ledOf lf pe typeCondition = Some (parseConditional pe) /\
+  parseConditional pe t lhs =
+  (do rhs <- pe 0;
+   do ty <- curType;
+   do els <- (if tt_eqb ty typeColon then consume typeColon true ;; do e <- pe 0; sret (Some e)
+              else sret None);
+   sret (NConditional lhs rhs els)).
+Proof. split; reflexivity. Qed.
+
+(* the bracketed parts of the postfix operators are parsed at binding power 0 (units) *)
+Theorem led_postfix lf pe :
+  ledOf lf pe typeParenOpen = Some (parseFunctionCall lf pe) /\
+  ledOf lf pe typeBracketOpen = Some (parsePredicate pe) /\
+  ledOf lf pe typeBraceOpen = Some (parseGroup lf pe) /\
+  ledOf lf pe typeSort = Some (parseSort lf pe).
+Proof. repeat split; reflexivity. Qed.
+
+End ParserClauses.
+
+Print Assumptions C04_ws.
+Print Assumptions scan_string_spec.
+Print Assumptions C04_quotes.
+Print Assumptions C04_regex_div.
+Print Assumptions C04_paren.
+Print Assumptions led_binary.
+
+Open Scope nat_scope.
+Open Scope list_scope.
+
+(* ==================================================================================== *)
+(* 4. The grouping theorem                                                               *)
+(* ==================================================================================== *)
+
+Section Grouping.
+Variable atom : Type.
+Variable op : Type.
+Variable lside : op -> nat.
+Variable rside : op -> option nat.
+
+Notation tree := (tree atom op).
+Notation sym := (sym atom op).
+Notation yield := (@yield atom op).
+Notation wf_prec := (wf_prec atom op lside rside).
+Notation rspine_ge := (rspine_ge atom op rside).
+Notation lspine_gt := (lspine_gt atom op lside).
+Notation stops := (stops atom op lside).
+Notation pexpr := (pexpr atom op lside rside).
+Notation ploop := (ploop atom op lside rside).
+
+(* what follows a complete operand t: nothing, an atom, or an operator that every operator on the
+   right spine of t leaves alone *)
+Definition rstops (t : tree) (rest : list sym) : Prop :=
+  match rest with SOp o :: _ => rspine_ge (lside o) t | _ => True end.
+
+Lemma rspine_ge_mono n m (t : tree) : m <= n -> rspine_ge n t -> rspine_ge m t.
+Proof.
+  intros Hmn. induction t as [a|o l IHl r IHr|o l IHl]; simpl; auto.
+  intros [H1 H2]. split; [|auto]. destruct (rside o); [lia|auto].
+Qed.
+
+Lemma pexpr_S f r s :
+  pexpr (S f) r s = match s with SAtom a :: s' => ploop f r (Leaf a) s' | _ => None end.
+Proof. reflexivity. Qed.
+Lemma ploop_S f r lhs s :
+  ploop (S f) r lhs s =
+  match s with
+  | SOp o :: s' =>
+      if Nat.ltb r (lside o) then
+        match rside o with
+        | None => ploop f r (Post o lhs) s'
+        | Some ro => match pexpr f ro s' with
+                     | Some (rhs, s'') => ploop f r (Bin o lhs rhs) s''
+                     | None => None
+                     end
+        end
+      else Some (lhs, s)
+  | _ => Some (lhs, s)
+  end.
+Proof. reflexivity. Qed.
+
+(* ---- soundness: what the Pratt loop returns is well grouped ---- *)
+
+Lemma pratt_sound : forall fuel,
+  (forall r s t rest, pexpr fuel r s = Some (t, rest) ->
+     s = yield t ++ rest /\ wf_prec t /\ lspine_gt r t /\ rstops t rest /\ stops r rest) /\
+  (forall r lhs s t rest, ploop fuel r lhs s = Some (t, rest) ->
+     wf_prec lhs -> lspine_gt r lhs -> rstops lhs s ->
+     yield lhs ++ s = yield t ++ rest /\ wf_prec t /\ lspine_gt r t /\ rstops t rest /\ stops r rest).
+Proof.
+  induction fuel as [|f [IHe IHl]]; [split; intros; discriminate|].
+  split.
+  - intros r s t rest H. rewrite pexpr_S in H.
+    destruct s as [|[a|o] s']; try discriminate H.
+    apply IHl in H; [|exact I|exact I|destruct s' as [|[a2|o2] s3]; exact I].
+    destruct H as (Hy & H). split; [exact Hy|tauto].
+  - intros r lhs s t rest H Hwf Hls Hrs. rewrite ploop_S in H.
+    destruct s as [|[a|o] s'].
+    + injection H as <- <-. simpl. auto.
+    + injection H as <- <-. simpl. auto.
+    + destruct (Nat.ltb r (lside o)) eqn:Elt.
+      * apply Nat.ltb_lt in Elt. simpl in Hrs.
+        destruct (rside o) as [ro|] eqn:Ero.
+        -- destruct (pexpr f ro s') as [[rhs s'']|] eqn:Ep; [|discriminate H].
+           apply IHe in Ep as (Hy & Hwr & Hlr & Hrr & Hst).
+           apply IHl in H.
+           ++ destruct H as (Hy2 & H2). split; [|exact H2].
+              rewrite <- Hy2. subst s'. simpl. rewrite <- app_assoc. reflexivity.
+           ++ simpl. rewrite Ero. auto.
+           ++ simpl. auto.
+           ++ unfold rstops. destruct s'' as [|[a2|o2] s3]; auto. simpl. rewrite Ero.
+              simpl in Hst, Hrr. auto.
+        -- apply IHl in H.
+           ++ destruct H as (Hy2 & H2). split; [|exact H2].
+              rewrite <- Hy2. simpl. rewrite <- app_assoc. reflexivity.
+           ++ simpl. auto.
+           ++ simpl. auto.
+           ++ unfold rstops. destruct s' as [|[a2|o2] s3]; simpl; auto.
+      * apply Nat.ltb_ge in Elt. injection H as <- <-. simpl. auto.
+Qed.
+
+(* pratt_wf: the tree returned by the Pratt loop for right binding power r has the consumed
+   prefix as its yield, is well grouped, its loop-level operators all bind more tightly than r,
+   and the token it stopped at does not *)
+Theorem pratt_wf fuel r s t rest : pexpr fuel r s = Some (t, rest) ->
+  s = yield t ++ rest /\ wf_prec t /\ lspine_gt r t /\ stops r rest.
+Proof. intros H. apply (proj1 (pratt_sound fuel)) in H. tauto. Qed.
+
+(* ---- completeness: every well-grouped tree is what the loop returns on its yield ---- *)
+
+(* number of loop iterations spent on the left spine *)
+Fixpoint cost (t : tree) : nat :=
+  match t with Leaf _ => 1 | Bin _ l _ => S (cost l) | Post _ l => S (cost l) end.
+
+Lemma cost_le_yield (t : tree) : cost t <= List.length (yield t).
+Proof.
+  induction t as [a|o l IHl r IHr|o l IHl]; simpl; [lia| |]; rewrite app_length; simpl; lia.
+Qed.
+
+Lemma yield_pos (t : tree) : 1 <= List.length (yield t).
+Proof. pose proof (cost_le_yield t). destruct t; simpl in *; lia. Qed.
+
+Lemma ploop_stop fuel r (t : tree) rest : stops r rest ->
+  ploop (S fuel) r t rest = Some (t, rest).
+Proof.
+  intros H. rewrite ploop_S. destruct rest as [|[a|o] s']; auto.
+  simpl in H. replace (Nat.ltb r (lside o)) with false; [reflexivity|].
+  symmetry. apply Nat.ltb_ge. exact H.
+Qed.
+
+Lemma pratt_reaches : forall t : tree, wf_prec t ->
+  forall r rest fuel, lspine_gt r t -> rstops t rest -> List.length (yield t) < fuel ->
+  pexpr fuel r (yield t ++ rest) = ploop (fuel - cost t) r t rest.
+Proof.
+  induction t as [a|o l IHl rt IHr|o l IHl]; intros Hwf r rest fuel Hls Hrs Hf.
+  - destruct fuel as [|f]; [simpl in Hf; lia|]. cbn [C04.yield app]. rewrite pexpr_S. cbn [cost]. rewrite Nat.sub_succ, Nat.sub_0_r. reflexivity.
+  - simpl in Hwf, Hls, Hf. destruct Hwf as (Hwl & Hwr & Hrl & Hlr). destruct Hls as [Hlt Hls].
+    rewrite app_length in Hf. simpl in Hf.
+    cbn [C04.yield]. rewrite <- app_assoc. cbn [app].
+    rewrite IHl; auto; [|lia].
+    pose proof (cost_le_yield l) as Hcl. pose proof (cost_le_yield rt) as Hcr.
+    destruct (fuel - cost l) as [|f'] eqn:Ef; [lia|].
+    rewrite ploop_S. apply Nat.ltb_lt in Hlt. rewrite Hlt.
+    destruct (rside o) as [ro|] eqn:Ero; [|contradiction].
+    assert (Hrs' : rstops rt rest /\ stops ro rest).
+    { unfold rstops, stops in *. destruct rest as [|[a2|o2] s3]; auto. simpl in Hrs. rewrite Ero in Hrs. tauto. }
+    destruct Hrs' as [Hrs1 Hrs2].
+    rewrite IHr; auto; [|lia].
+    destruct (f' - cost rt) as [|f''] eqn:Ef'; [lia|].
+    rewrite ploop_stop by exact Hrs2.
+    cbn [cost]. f_equal. lia.
+  - simpl in Hwf, Hls, Hf. destruct Hwf as (Hwl & Hrl & Hro). destruct Hls as [Hlt Hls].
+    rewrite app_length in Hf. simpl in Hf.
+    cbn [C04.yield]. rewrite <- app_assoc. cbn [app].
+    rewrite IHl; auto; [|lia].
+    pose proof (cost_le_yield l) as Hcl.
+    destruct (fuel - cost l) as [|f'] eqn:Ef; [lia|].
+    rewrite ploop_S. apply Nat.ltb_lt in Hlt. rewrite Hlt, Hro.
+    cbn [cost]. f_equal. lia.
+Qed.
+
+Theorem pratt_complete (t : tree) r rest fuel :
+  wf_prec t -> lspine_gt r t -> rstops t rest -> stops r rest -> List.length (yield t) < fuel ->
+  pexpr fuel r (yield t ++ rest) = Some (t, rest).
+Proof.
+  intros Hwf Hls Hrs Hst Hf. rewrite pratt_reaches by auto.
+  pose proof (cost_le_yield t).
+  destruct (fuel - cost t) as [|f'] eqn:Ef; [lia|]. apply ploop_stop. exact Hst.
+Qed.
+
+(* all operators of a chain have a positive left rank (level 0 admits every operator) *)
+Definition ops_positive (s : list sym) : Prop :=
+  Forall (fun x => match x with SOp o => 0 < lside o | SAtom _ => True end) s.
+
+Lemma lspine_gt_0 (t : tree) : ops_positive (yield t) -> lspine_gt 0 t.
+Proof.
+  unfold ops_positive.
+  induction t as [a|o l IHl r IHr|o l IHl]; simpl; auto; intros H; apply Forall_app in H as [H1 H2].
+  - inversion H2; subst. auto.
+  - inversion H2; subst. auto.
+Qed.
+
+(* wf_unique: precedence, associativity and the sequence of operands and operators determine the
+   tree: two well-grouped trees with the same yield are equal *)
+Theorem wf_unique_gen (t1 t2 : tree) : ops_positive (yield t1) ->
+  wf_prec t1 -> wf_prec t2 -> yield t1 = yield t2 -> t1 = t2.
+Proof.
+  intros Hpos H1 H2 Hy.
+  assert (Hpos2 : ops_positive (yield t2)) by (rewrite <- Hy; exact Hpos).
+  pose proof (pratt_complete t1 0 [] (S (List.length (yield t1))) H1 (lspine_gt_0 t1 Hpos) I I (Nat.lt_succ_diag_r _)) as E1.
+  pose proof (pratt_complete t2 0 [] (S (List.length (yield t2))) H2 (lspine_gt_0 t2 Hpos2) I I (Nat.lt_succ_diag_r _)) as E2.
+  rewrite Hy in E1. rewrite E1 in E2. injection E2 as E. exact E.
+Qed.
+
+Theorem wf_unique (t1 t2 : tree) : (forall o, 0 < lside o) ->
+  wf_prec t1 -> wf_prec t2 -> yield t1 = yield t2 -> t1 = t2.
+Proof.
+  intros Hpos. apply wf_unique_gen. unfold ops_positive. apply Forall_forall. intros [a|o] _; auto.
+Qed.
+
+(* ---- totality on well-formed chains ---- *)
+
+(* operand (operator operand | postfix-operator)* ; [apos]: an operand is expected next *)
+Fixpoint chain_ok (apos : bool) (s : list sym) : bool :=
+  match s with
+  | [] => negb apos
+  | SAtom _ :: s' => apos && chain_ok false s'
+  | SOp o :: s' => negb apos && chain_ok (match rside o with Some _ => true | None => false end) s'
+  end.
+
+Lemma pratt_total : forall fuel,
+  (forall r s, chain_ok true s = true -> List.length s < fuel ->
+     exists t rest, pexpr fuel r s = Some (t, rest) /\ chain_ok false rest = true /\ List.length rest < List.length s) /\
+  (forall r lhs s, chain_ok false s = true -> List.length s < fuel ->
+     exists t rest, ploop fuel r lhs s = Some (t, rest) /\ chain_ok false rest = true /\ List.length rest <= List.length s).
+Proof.
+  induction fuel as [|f [IHe IHl]]; [split; intros; lia|].
+  split.
+  - intros r s Hok Hf. rewrite pexpr_S. destruct s as [|[a|o] s']; try discriminate Hok.
+    simpl in Hok, Hf. destruct (IHl r (Leaf a) s' Hok ltac:(lia)) as (t & rest & H & Hr & Hlen).
+    exists t, rest. simpl. repeat split; auto; lia.
+  - intros r lhs s Hok Hf. rewrite ploop_S. destruct s as [|[a|o] s'].
+    + exists lhs, []. auto.
+    + discriminate Hok.
+    + simpl in Hok, Hf. destruct (Nat.ltb r (lside o)).
+      * destruct (rside o) as [ro|].
+        -- destruct (IHe ro s' Hok ltac:(lia)) as (rhs & s'' & H & Hr & Hlen). rewrite H.
+           destruct (IHl r (Bin o lhs rhs) s'' Hr ltac:(lia)) as (t & rest & H2 & Hr2 & Hlen2).
+           exists t, rest. simpl. repeat split; auto; lia.
+        -- destruct (IHl r (Post o lhs) s' Hok ltac:(lia)) as (t & rest & H2 & Hr2 & Hlen2).
+           exists t, rest. simpl. repeat split; auto; lia.
+      * exists lhs, (SOp o :: s'). simpl. repeat split; auto.
+Qed.
+
+(* pratt_chain: every well-formed chain whose operators all have a positive rank HAS a
+   well-grouped tree, exactly one, and the Pratt loop at level 0 returns it *)
+Theorem pratt_chain s : chain_ok true s = true -> ops_positive s ->
+  exists t, pexpr (S (List.length s)) 0 s = Some (t, []) /\ wf_prec t /\ yield t = s /\
+            forall t', wf_prec t' -> yield t' = s -> t' = t.
+Proof.
+  intros Hok Hpos.
+  destruct (proj1 (pratt_total (S (List.length s))) 0 s Hok (Nat.lt_succ_diag_r _)) as (t & rest & H & Hr & Hlen).
+  pose proof (pratt_wf _ _ _ _ _ H) as (Hs & Hwf & _ & Hst).
+  assert (rest = []).
+  { destruct rest as [|[a|o] rest']; [reflexivity|discriminate Hr|].
+    simpl in Hst. unfold ops_positive in Hpos. rewrite Hs in Hpos. apply Forall_app in Hpos as [_ Hp].
+    inversion Hp; subst. lia. }
+  subst rest. rewrite app_nil_r in Hs. exists t. repeat split; auto.
+  intros t' Hwf' Hy'. symmetry. apply wf_unique_gen; auto; congruence.
+Qed.
+
+(* the whole input: the loop at level 0 consumes a complete chain and returns THE well-grouped
+   tree of that chain *)
+Corollary pratt_is_the_wf_tree fuel s t (t' : tree) : ops_positive s ->
+  pexpr fuel 0 s = Some (t, []) -> wf_prec t' -> yield t' = s -> t' = t.
+Proof.
+  intros Hpos H Hwf Hy. apply pratt_wf in H as (Hs & Hw & _). rewrite app_nil_r in Hs.
+  apply wf_unique_gen; auto; congruence.
+Qed.
+
+(* ---- the textbook reading for left-grouping chains ---- *)
+
+Notation ops_of := (@ops_of atom op).
+Notation climb := (climb atom op lside).
+
+Section LeftGrouping.
+(* every operator is binary and left-grouping *)
+Hypothesis Hleft : forall o, rside o = Some (lside o).
+
+Lemma wf_lspine_all (t : tree) : wf_prec t -> forall n, lspine_gt n t ->
+  Forall (fun q => n < lside q) (ops_of t).
+Proof.
+  induction t as [a|o l IHl r IHr|o l IHl]; intros Hwf n Hls; simpl in *.
+  - constructor.
+  - destruct Hwf as (Hwl & Hwr & Hrl & Hlr). destruct Hls as [Hlt Hls]. rewrite Hleft in Hlr.
+    apply Forall_app. split; [auto|]. constructor; [exact Hlt|].
+    eapply Forall_impl; [|apply (IHr Hwr _ Hlr)]. simpl. intros q Hq. lia.
+  - destruct Hwf as (_ & _ & Hro). rewrite Hleft in Hro. discriminate.
+Qed.
+
+Lemma wf_rspine_all (t : tree) : wf_prec t -> forall n, rspine_ge n t ->
+  Forall (fun p => n <= lside p) (ops_of t).
+Proof.
+  induction t as [a|o l IHl r IHr|o l IHl]; intros Hwf n Hrs; simpl in *.
+  - constructor.
+  - destruct Hwf as (Hwl & Hwr & Hrl & Hlr). destruct Hrs as [Hge Hrs]. rewrite Hleft in Hge.
+    apply Forall_app. split.
+    + eapply Forall_impl; [|apply (IHl Hwl _ Hrl)]. simpl. intros p Hp. lia.
+    + constructor; [exact Hge|auto].
+  - destruct Hwf as (_ & _ & Hro). rewrite Hleft in Hro. discriminate.
+Qed.
+
+(* wf_climb: for chains of left-grouping binary operators the well-grouped tree is the one of the
+   textbook: at every node the operator is the LAST one of minimal rank in its sub-chain (all
+   operators to its left bind at least as tightly, all operators to its right strictly more) *)
+Theorem wf_climb (t : tree) : wf_prec t -> climb t.
+Proof.
+  induction t as [a|o l IHl r IHr|o l IHl]; intros Hwf; simpl in *.
+  - exact I.
+  - destruct Hwf as (Hwl & Hwr & Hrl & Hlr). rewrite Hleft in Hlr.
+    repeat split; auto.
+    + apply wf_rspine_all; auto.
+    + apply wf_lspine_all; auto.
+  - destruct Hwf as (_ & _ & Hro). rewrite Hleft in Hro. discriminate.
+Qed.
+
+End LeftGrouping.
+
+End Grouping.
+
+Open Scope string_scope.
+Open Scope Z_scope.
+
+Print Assumptions pratt_wf.
+Print Assumptions pratt_complete.
+Print Assumptions wf_unique.
+Print Assumptions pratt_chain.
+Print Assumptions wf_climb.
+
+(* ==================================================================================== *)
+(* 5. The model's Pratt loop IS the abstract loop (chains of binary operators and :=)    *)
+(* ==================================================================================== *)
+
+(* operand tokens whose nud returns a node without reading further *)
+Definition atom_node (t : token) : option node :=
+  match ttype t with
+  | typeVariable => Some (NVariable (tvalue t))
+  | typeName | typeAnd | typeOr | typeIn => Some (NName (tvalue t) false)
+  | typeNameEsc => Some (NName (tvalue t) true)
+  | typeNull => Some NNull
+  | typeMult => Some NWildcard
+  | typeDescendent => Some NDescendent
+  | _ => None
+  end.
+
+(* the operator tokens of this section: the 17 binary operators and := *)
+Definition is_op_tok (t : token) : bool :=
+  is_some (binop_of (ttype t)) || tt_eqb (ttype t) typeAssign.
+
+(* the two sides of an operator token, read off the model's binding-power table *)
+Definition tok_lside (t : token) : nat := Z.to_nat (lookupBp (ttype t)).
+Definition tok_rside (t : token) : option nat :=
+  if tt_eqb (ttype t) typeAssign then Some (tok_lside t - 1)%nat else Some (tok_lside t).
+
+Notation ttree := (tree token token).
+Notation tsym := (sym token token).
+
+(* the jparse node of an abstract tree; None when an assignment has a non-variable target *)
+Fixpoint embed (t : ttree) : option node :=
+  match t with
+  | Leaf a => atom_node a
+  | Post _ _ => None
+  | Bin o l r =>
+      match embed l, embed r with
+      | Some nl, Some nr =>
+          if tt_eqb (ttype o) typeAssign then
+            match nl with NVariable name => Some (NAssignment name nr) | _ => None end
+          else match binop_of (ttype o) with Some mk => Some (mk nl nr) | None => None end
+      | _, _ => None
+      end
+  end.
+
+(* [stream opos p s]: the parser state p delivers the token sequence s and then a token without
+   binding power (end of input, a closing bracket, a separator ...).  The token after an
+   operand is obtained with advance false, the token after an operator with advance true —
+   exactly the calls the Pratt loop makes. *)
+Fixpoint stream (opos : bool) (p : parser) (s : list tsym) : Prop :=
+  match s with
+  | [] => opos = true /\ lookupBp (ttype (ptoken p)) = 0
+  | SAtom a :: s' =>
+      opos = false /\ ptoken p = a /\ is_some (atom_node a) = true /\
+      exists p', advance false p = ROk (tt, p') /\ stream true p' s'
+  | SOp o :: s' =>
+      opos = true /\ ptoken p = o /\ is_op_tok o = true /\
+      exists p', advance true p = ROk (tt, p') /\ stream false p' s'
+  end.
+
+Section Simulation.
+Variable parse_number : string -> numlit.
+Variable regex_check : string -> option string.
+Variable fmt_g : f64 -> string.
+Variable quote : string -> string.
+
+Notation pExpr := (parseExpression parse_number regex_check fmt_g quote).
+Notation lLoop := (ledLoop parse_number regex_check fmt_g quote).
+Notation nudOf := (lookupNud parse_number regex_check).
+Notation ledOf := (lookupLed fmt_g quote).
+Notation apexpr := (pexpr token token tok_lside tok_rside).
+Notation aploop := (ploop token token tok_lside tok_rside).
+
+Lemma nud_atom lf pe a na : atom_node a = Some na ->
+  tt_eqb (ttype a) typeEOF = false /\
+  exists nud, nudOf lf pe (ttype a) = Some nud /\ nud a = sret na.
+Proof.
+  unfold atom_node. destruct a as [ty v pos]. cbn [ttype tvalue].
+  destruct ty; intros H; try discriminate H; injection H as <-;
+    (split; [reflexivity|eexists; split; reflexivity]).
+Qed.
+
+Lemma binop_not_assign ty mk : binop_of ty = Some mk -> tt_eqb ty typeAssign = false.
+Proof. destruct ty; intros H; try discriminate H; reflexivity. Qed.
+
+Lemma aploop_embed_none : forall fuel r lhs s t rest,
+  aploop fuel r lhs s = Some (t, rest) -> embed lhs = None -> embed t = None.
+Proof.
+  induction fuel as [|f IH]; intros r lhs s t rest H Hn; [discriminate|].
+  rewrite ploop_S in H. destruct s as [|[a|o] s'].
+  - injection H as <- <-; exact Hn.
+  - injection H as <- <-; exact Hn.
+  - destruct (Nat.ltb r (tok_lside o)); [|injection H as <- <-; exact Hn].
+    destruct (tok_rside o) as [ro|].
+    + destruct (apexpr f ro s') as [[rhs s'']|]; [|discriminate].
+      eapply IH; [exact H|]. cbn [embed]. rewrite Hn. reflexivity.
+    + eapply IH; [exact H|]. reflexivity.
+Qed.
+
+(* the outcome of the model on a stream, in terms of the abstract tree *)
+Definition sim_outcome (r : res (node * parser)) (t : ttree) (rest : list tsym) : Prop :=
+  (exists n p', r = ROk (n, p') /\ embed t = Some n /\ stream true p' rest) \/
+  (exists e, r = RErr e /\ etype e = ErrIllegalAssignment /\ embed t = None).
+
+Theorem C04_pratt_model : forall fuel,
+  (forall r s p t rest, stream false p s -> apexpr fuel r s = Some (t, rest) ->
+     sim_outcome (pExpr fuel (Z.of_nat r) p) t rest) /\
+  (forall r lhs nl s p t rest, stream true p s -> aploop fuel r lhs s = Some (t, rest) ->
+     embed lhs = Some nl ->
+     sim_outcome (lLoop fuel (Z.of_nat r) nl p) t rest).
+Proof.
+  induction fuel as [|f [IHe IHl]]; [split; intros; discriminate|].
+  split.
+  - intros r s p t rest Hst H. rewrite pexpr_S in H.
+    destruct s as [|[a|o] s']; try discriminate H.
+    destruct Hst as (_ & Hp & Ha & p' & Hadv & Hst').
+    destruct (atom_node a) as [na|] eqn:Ena; [|discriminate Ha].
+    destruct (nud_atom f (pExpr f) a na Ena) as (Hne & nud & Hnud & Hrun).
+    rewrite parseExpression_unfold, bind_curToken, Hp, Hne.
+    unfold sbind at 1. rewrite Hadv. rewrite Hnud. unfold sbind at 1. rewrite Hrun. unfold sret.
+    apply (IHl r (Leaf a) na s' p' t rest Hst' H). exact Ena.
+  - intros r lhs nl s p t rest Hst H Hl. rewrite ploop_S in H. rewrite ledLoop_unfold, bind_curToken.
+    destruct s as [|[a|o] s'].
+    + destruct Hst as (_ & Hbp). rewrite Hbp. replace (Z.of_nat r <? 0) with false by lia.
+      injection H as <- <-. left. exists nl, p. repeat split; auto.
+    + destruct Hst as (Hf & _). discriminate Hf.
+    + destruct Hst as (_ & Hp & Hop & p' & Hadv & Hst'). rewrite Hp.
+      pose proof (bp_nonneg (ttype o)) as Hnn.
+      replace (Z.of_nat r <? lookupBp (ttype o)) with (Nat.ltb r (tok_lside o))
+        by (unfold tok_lside; destruct (Nat.ltb_spec r (Z.to_nat (lookupBp (ttype o)))); lia).
+      destruct (Nat.ltb r (tok_lside o)) eqn:Elt.
+      2:{ injection H as <- <-. left. exists nl, p. split; [reflexivity|]. split; [exact Hl|].
+          cbn [stream]. refine (conj eq_refl (conj Hp (conj Hop _))). exists p'. auto. }
+      unfold sbind at 1. rewrite Hadv.
+      unfold is_op_tok in Hop.
+      destruct (binop_of (ttype o)) as [mk|] eqn:Ebin.
+      * (* one of the 17 left-grouping binary operators *)
+        assert (Hrs : tok_rside o = Some (tok_lside o)).
+        { unfold tok_rside. rewrite (binop_not_assign _ _ Ebin). reflexivity. }
+        rewrite Hrs in H.
+        destruct (led_binary fmt_g quote f (pExpr f) o mk Ebin) as (led & Hled & Hrun).
+        rewrite Hled. unfold sbind at 1. rewrite Hrun.
+        destruct (apexpr f (tok_lside o) s') as [[rhs s'']|] eqn:Ep; [|discriminate H].
+        pose proof (IHe (tok_lside o) s' p' rhs s'' Hst' Ep) as Hsim.
+        replace (Z.of_nat (tok_lside o)) with (lookupBp (ttype o)) in Hsim by (unfold tok_lside; lia).
+        destruct Hsim as [(nr & p2 & Hr & Her & Hst2)|(e & Hr & Hty & Her)].
+        -- unfold sbind at 1. rewrite Hr. unfold sret.
+           apply (IHl r (Bin o lhs rhs) (mk nl nr) s'' p2 t rest Hst2 H).
+           cbn [embed]. rewrite Hl, Her, (binop_not_assign _ _ Ebin), Ebin. reflexivity.
+        -- unfold sbind at 1. rewrite Hr. right. exists e. repeat split; auto.
+           eapply aploop_embed_none; [exact H|]. cbn [embed]. rewrite Hl, Her. reflexivity.
+      * (* := *)
+        cbn [is_some orb] in Hop.
+        assert (Hrs : tok_rside o = Some (tok_lside o - 1)%nat).
+        { unfold tok_rside. rewrite Hop. reflexivity. }
+        rewrite Hrs in H.
+        assert (Hty : ttype o = typeAssign) by (apply tt_eqb_eq; exact Hop).
+        destruct (led_assign fmt_g quote f (pExpr f) o) as (Hled & Hvar & Hnovar).
+        replace (ledOf f (pExpr f) (ttype o)) with (ledOf f (pExpr f) typeAssign) by (rewrite Hty; reflexivity).
+        rewrite Hled. unfold sbind at 1.
+        destruct (apexpr f (tok_lside o - 1) s') as [[rhs s'']|] eqn:Ep; [|discriminate H].
+        assert (Hnl : (exists name, nl = NVariable name) \/ (forall name, nl <> NVariable name)).
+        { destruct nl; first [left; eexists; reflexivity|right; intros nm; discriminate]. }
+        destruct Hnl as [(name & ->)|Hnv].
+        -- rewrite Hvar.
+           pose proof (IHe (tok_lside o - 1)%nat s' p' rhs s'' Hst' Ep) as Hsim.
+           replace (Z.of_nat (tok_lside o - 1)) with (lookupBp (ttype o) - 1) in Hsim
+             by (unfold tok_lside; rewrite Hty; vm_compute; reflexivity).
+           destruct Hsim as [(nr & p2 & Hr & Her & Hst2)|(e & Hr & Hte & Her)].
+           ++ unfold sbind at 1. rewrite Hr. unfold sret.
+              apply (IHl r (Bin o lhs rhs) (NAssignment name nr) s'' p2 t rest Hst2 H).
+              cbn [embed]. rewrite Hl, Her, Hop. reflexivity.
+           ++ unfold sbind at 1. rewrite Hr. right. exists e. repeat split; auto.
+              eapply aploop_embed_none; [exact H|]. cbn [embed]. rewrite Hl, Her. reflexivity.
+        -- rewrite (Hnovar nl Hnv). right. eexists. split; [reflexivity|]. split; [reflexivity|].
+           eapply aploop_embed_none; [exact H|]. cbn [embed]. rewrite Hl, Hop.
+           destruct (embed rhs); [|reflexivity]. destruct nl; try reflexivity.
+           exfalso. eapply Hnv; reflexivity.
+Qed.
+
+Notation awf := (wf_prec token token tok_lside tok_rside).
+Notation ayield := (@yield token token).
+
+Lemma is_op_tok_pos o : is_op_tok o = true -> (0 < tok_lside o)%nat.
+Proof.
+  unfold is_op_tok, tok_lside. destruct o as [ty v pos]. cbn [ttype].
+  destruct ty; intros H; try discriminate H; vm_compute; lia.
+Qed.
+
+Lemma stream_chain_ok : forall s opos p, stream opos p s ->
+  chain_ok token token tok_rside (negb opos) s = true /\ ops_positive token token tok_lside s.
+Proof.
+  induction s as [|[a|o] s IH]; intros opos p H; cbn [stream] in H.
+  - destruct H as (-> & _). split; [reflexivity|constructor].
+  - destruct H as (-> & _ & _ & p' & _ & H). apply IH in H as [H1 H2].
+    split; [exact H1|constructor; [exact I|exact H2]].
+  - destruct H as (-> & _ & Hop & p' & _ & H). apply IH in H as [H1 H2].
+    split.
+    + cbn [chain_ok negb andb]. unfold tok_rside. destruct (tt_eqb (ttype o) typeAssign); exact H1.
+    + constructor; [apply is_op_tok_pos; exact Hop|exact H2].
+Qed.
+
+(* C04_chain: for EVERY chain of simple operands (names, variables, the words and/or/in as
+   names, null, the wildcards) and binary operators (the 17 left-grouping ones and the
+   right-grouping :=) that the lexer delivers to the parser, there is exactly one tree that is
+   well grouped for the rows and associativities of the binding-power table, and
+   parseExpression at right binding power 0 returns precisely that tree (as jparse nodes), or the
+   IllegalAssignment error exactly when that tree assigns to something that is not a variable *)
+Theorem C04_chain s p : stream false p s ->
+  exists t, awf t /\ ayield t = s /\ (forall t', awf t' -> ayield t' = s -> t' = t) /\
+            sim_outcome (pExpr (S (List.length s)) 0 p) t [].
+Proof.
+  intros Hst. destruct (stream_chain_ok s false p Hst) as [Hok Hpos].
+  destruct (pratt_chain token token tok_lside tok_rside s Hok Hpos) as (t & Hp & Hwf & Hy & Huniq).
+  exists t. repeat split; auto.
+  apply (proj1 (C04_pratt_model (S (List.length s))) 0%nat s p t [] Hst Hp).
+Qed.
+
+End Simulation.
+
+Print Assumptions C04_pratt_model.
+Print Assumptions C04_chain.
+
+(* a concrete chain: the lexer run on "a & b = c" is a stream, and the parse is (a & b) = c *)
+Example C04_chain_ex :
+  let src := "a & b = c"%string in
+  let tk ty v pos := {| ttype := ty; tvalue := v; tpos := pos |} in
+  let s := [SAtom (tk typeName "a" 0); SOp (tk typeConcat "&" 2); SAtom (tk typeName "b" 4);
+            SOp (tk typeEqual "=" 6); SAtom (tk typeName "c" 8)]%string in
+  (exists p, newParser src = ROk p /\ stream false p s) /\
+  (forall pn rc fg q, parse_raw pn rc fg q (parse_fuel src) src =
+     ROk (NComparison CmpEq (NConcat (NName "a" false) (NName "b" false)) (NName "c" false))).
+Proof.
+  split.
+  - eexists. split; [vm_compute; reflexivity|].
+    cbn [stream]. repeat (split; [reflexivity|]).
+    eexists; split; [vm_compute; reflexivity|]. cbn [stream]. repeat (split; [reflexivity|]).
+    eexists; split; [vm_compute; reflexivity|]. cbn [stream]. repeat (split; [reflexivity|]).
+    eexists; split; [vm_compute; reflexivity|]. cbn [stream]. repeat (split; [reflexivity|]).
+    eexists; split; [vm_compute; reflexivity|]. cbn [stream]. repeat (split; [reflexivity|]).
+    eexists; split; [vm_compute; reflexivity|]. cbn [stream]. split; reflexivity.
+  - intros. vm_compute. reflexivity.
+Qed.
+
+(* do not leak the div/mod pre-processing of [lia] to importers *)
+Ltac Zify.zify_post_hook ::= idtac.
